@@ -587,11 +587,11 @@ package argmapper
 //@   ensures  [typed-output-from-the-field-of-its-type] forall(i, int, imp(0 <= i && i < len(vs) && typeis(vs[i], *typedOutputVertex), as(vs[i], *typedOutputVertex).Value == vfield(lastStruct, f.output.typedValues[as(vs[i], *typedOutputVertex).Type].index)))
 //@   ensures  [shared-output-slice-untouched] sliceskept([]reflect.Value)
 //@   assigns  valueVertex.Value, typedOutputVertex.Value, Result, []reflect.Value, rvstore, rvfresh, lastStruct
-//@   modifies forall(x, *valueVertex, inSlice(vs, box(x))), forall(x, *typedOutputVertex, inSlice(vs, box(x)))
+//@   modifies forall(x, *valueVertex, true), forall(x, *typedOutputVertex, true)
 //@   after "structVal := f.output.result(r).out[0]" set lastStruct = structVal
 //@   loop 1 invariant sliceskept([]reflect.Value) && lastStruct == structVal
-//@   loop 1 invariant forall(i, int, imp(0 <= i && i < idx1 && typeis(vs[i], *valueVertex) && forall(j, int, imp(i < j && j < idx1, vs[j] != vs[i])), as(vs[i], *valueVertex).Value == vfield(lastStruct, f.output.namedValues[as(vs[i], *valueVertex).Name].index)))
-//@   loop 1 invariant forall(i, int, imp(0 <= i && i < idx1 && typeis(vs[i], *typedOutputVertex) && forall(j, int, imp(i < j && j < idx1, vs[j] != vs[i])), as(vs[i], *typedOutputVertex).Value == vfield(lastStruct, f.output.typedValues[as(vs[i], *typedOutputVertex).Type].index)))
+//@   loop 1 invariant forall(i, int, imp(0 <= i && i < idx1 && typeis(vs[i], *valueVertex), as(vs[i], *valueVertex).Value == vfield(lastStruct, f.output.namedValues[as(vs[i], *valueVertex).Name].index)))
+//@   loop 1 invariant forall(i, int, imp(0 <= i && i < idx1 && typeis(vs[i], *typedOutputVertex), as(vs[i], *typedOutputVertex).Value == vfield(lastStruct, f.output.typedValues[as(vs[i], *typedOutputVertex).Type].index)))
 
 //@ func newCallState
 //@   ensures result != nil && fresh(result) && result.NamedValue != nil && result.TypedValue != nil && result.InputSet != nil && fresh(result.InputSet) && !valid(result.Value) && forall(k, any, !has(result.InputSet, k))
